@@ -24,7 +24,7 @@ var zkPath = d2.UrisPath(cluster)
 // ---------- events ----------
 
 type Event struct {
-	Kind string `json:"kind"` // addA addB addZ del malformed weightless emptyweights badurl jsonnull emptydata root svc1 svc2 svcbad svcnil svcwrongpath
+	Kind string `json:"kind"` // addA addB addZ del malformed weightless emptyweights badurl badurlmixed jsonnull emptydata root svc1 svc2 svcbad svcnil svcwrongpath
 	Node int    `json:"node"` // 1..3 for node events
 }
 
@@ -80,6 +80,9 @@ func (e Event) tree() d2.TreeCacheEvent {
 		return d2.TreeCacheEvent{Path: p, Data: data(`{"weights":{}}`)}
 	case "badurl":
 		return d2.TreeCacheEvent{Path: p, Data: data(`{"weights":{"http://[::1":1}}`)}
+	case "badurlmixed":
+		// one host that parses next to one that does not: the announcement is malformed as a whole
+		return d2.TreeCacheEvent{Path: p, Data: data(fmt.Sprintf(`{"weights":{"http://h%dm:80":1,"http://bad:80abc":1,"https://h%dm:443":2}}`, e.Node, e.Node))}
 	case "jsonnull":
 		return d2.TreeCacheEvent{Path: p, Data: data(`null`)}
 	case "emptydata":
@@ -299,7 +302,7 @@ func partA(a *hcli.Args, rep *report.Report) {
 		maxLen int
 	}
 	core := append(nodeEvents([]string{"addA", "addB", "del", "malformed", "weightless"}), Event{"root", 0})
-	wide := append(nodeEvents([]string{"addA", "addB", "addZ", "del", "malformed", "weightless", "emptyweights", "badurl", "jsonnull", "emptydata", "wrongtype"}), Event{"root", 0})
+	wide := append(nodeEvents([]string{"addA", "addB", "addZ", "del", "malformed", "weightless", "emptyweights", "badurl", "badurlmixed", "jsonnull", "emptydata", "wrongtype"}), Event{"root", 0})
 	fams := []fam{{"uri-histories-core16", core, 4}, {"uri-histories-wide31", wide, 3}}
 	if a.Thorough() {
 		fams = []fam{{"uri-histories-core16", core, 6}, {"uri-histories-wide31", wide, 4}}
